@@ -1421,6 +1421,8 @@ func main() {
 		r.Write(*out)
 		return
 	}
+	installYield()
+	r.Count("runs_in_mode_"+yieldMode, 1)
 	n := 40
 	if *tier == "thorough" {
 		n = 120
